@@ -63,8 +63,19 @@ def rule_criteria(ctx, rid):
         if isinstance(n, ast.Return) and isinstance(n.value, ast.Name):
             vec = n.value.id
     guards = {}
+    # sites inside `if waveform is not None:` are not reachable from the cycle labelling or the container (neither
+    # passes a waveform); the criteria are read on the waveform-free paths, like the evaluated returns below
+    dead = set()
     for n in walk_local(fi.node):
-        if isinstance(n, ast.If):
+        if isinstance(n, ast.If) and isinstance(n.test, ast.Compare) and len(n.test.ops) == 1 \
+                and isinstance(n.test.left, ast.Name) and n.test.left.id == 'waveform' \
+                and isinstance(n.test.comparators[0], ast.Constant) and n.test.comparators[0].value is None:
+            branch = n.body if isinstance(n.test.ops[0], ast.IsNot) else (n.orelse if isinstance(n.test.ops[0], ast.Is) else [])
+            for st_ in branch:
+                for x in ast.walk(st_):
+                    dead.add(id(x))
+    for n in walk_local(fi.node):
+        if isinstance(n, ast.If) and id(n) not in dead:
             for s in n.body:
                 if isinstance(s, ast.Assign) and isinstance(s.targets[0], ast.Subscript) \
                         and isinstance(s.targets[0].value, ast.Name) and s.targets[0].value.id == vec \
